@@ -661,9 +661,7 @@ class Src:
         self.bi += 1
         if i < len(self.fixed):
             return bool(self.fixed[i])
-        if self.bits[i]:
-            return True
-        return False
+        return rt.B(self.bits[i])
 
     def skip_bit(self) -> None:
         self.bi += 1
@@ -848,6 +846,7 @@ def build(fam: str, S: dict, s: Src) -> tuple:
     raise AssertionError('unknown family ' + fam)
 
 
+@rt.natively
 def run(bits: list, ints: list) -> bool:
     rt.begin()
     S = rt.SHARD
